@@ -289,39 +289,49 @@ def _dedup(vs, per_key=1):
     return out
 
 
-def _determinism(rep, thorough):
+def _child_env(s, off, tz, order):
+    env = dict(os.environ)
+    env["PYTHONHASHSEED"] = s
+    env["C14_CLOCK_OFFSET"] = str(off)
+    env["TZ"] = tz  # the process time zone is part of the environment a run must not depend on
+    env["C14_ORDER"] = order  # which simulations the process ran before each scenario
+    env["PYTHONPATH"] = core.REPO + ":" + core.VERIF
+    return env
+
+
+def _children(envs):
     child = os.path.join(core.VERIF, "tools", "c14_child.py")
+    procs = [(e, subprocess.Popen([sys.executable, child], env=_child_env(*e), stdout=subprocess.PIPE, stderr=subprocess.PIPE)) for e in envs]
+    outs = []
+    for e, p in procs:
+        o, err = p.communicate(timeout=600)
+        if p.returncode != 0:
+            raise core.HarnessError("c14 child failed (seed %s offset %s tz %s order %s): %s" % (e + (err.decode()[-800:],)))
+        outs.append((e, o))
+    return outs
+
+
+def _determinism(rep, thorough):
     envs = []
     seeds = ["0", "1", "2", "random"] + (["3", "12345", "random"] if thorough else [])
     offsets = [0, 86400, -400 * 86400]
+    tzs = ["UTC0", "JST-9", "EST5"]
+    orders = ("fwd", "rev", "fwd", "rot")
     for s in seeds:
         for off in offsets:
-            envs.append((s, off))
-    procs = []
-    tzs = ["UTC0", "JST-9", "EST5"]  # the process time zone is part of the environment a run must not depend on
-    for k_, (s, off) in enumerate(envs):
-        env = dict(os.environ)
-        env["PYTHONHASHSEED"] = s
-        env["C14_CLOCK_OFFSET"] = str(off)
-        env["TZ"] = tzs[k_ % len(tzs)]
-        env["PYTHONPATH"] = core.REPO + ":" + core.VERIF
-        procs.append((s, off, subprocess.Popen([sys.executable, child], env=env, stdout=subprocess.PIPE, stderr=subprocess.PIPE)))
-    outs = []
-    for s, off, p in procs:
-        o, e = p.communicate(timeout=600)
-        if p.returncode != 0:
-            raise core.HarnessError("c14 child failed (seed %s offset %s): %s" % (s, off, e.decode()[-800:]))
-        outs.append((s, off, o))
-    base = outs[0][2]
+            k_ = len(envs)
+            envs.append((s, off, tzs[k_ % len(tzs)], orders[k_ % 4]))
+    outs = _children(envs)
+    base = outs[0][1]
     n_sc = len(json.loads(base))
     rep.count("determinism_environments", len(outs), mandatory=True)
     rep.count("determinism_scenarios", n_sc, mandatory=True)
     rep.clause_evals("C14.e", len(outs) * n_sc)
-    for s, off, o in outs[1:]:
+    for e, o in outs[1:]:
         if o != base:
             a, b = json.loads(base), json.loads(o)
             diff = [k for k in a if a[k] != b.get(k)]
-            rep.add_violations([core.v("C14.e", (False, "none", "determinism " + ",".join(diff[:2])), "ledger differs between PYTHONHASHSEED=%s offset=%s and seed=%s offset=%s in scenarios %s" % (outs[0][0], outs[0][1], s, off, diff), dict(seed=s, offset=off, scenarios=diff))])
+            rep.add_violations([core.v("C14.e", (False, "none", "determinism " + ",".join(diff[:2])), "ledger differs between (PYTHONHASHSEED, clock offset, time zone, order of the scenarios in the process) = %r and %r in scenarios %s" % (outs[0][0], e, diff), dict(env0=list(outs[0][0]), env1=list(e), scenarios=diff))])
     rep.traces += len(outs) * n_sc
     rep.transitions += len(outs) * n_sc
     return len(outs) * n_sc
@@ -439,8 +449,14 @@ def replay(rep):
         r = _restore_one((c["raise_at"],))
     elif "real_time_at" in c:
         r = _realtime_one((c["real_time_at"], c["raises"]))
+    elif "env1" in c:
+        outs = _children([tuple(c["env0"]), tuple(c["env1"])])
+        a, b = json.loads(outs[0][1]), json.loads(outs[1][1])
+        diff = [k for k in a if a[k] != b.get(k)]
+        print("scenarios that differ between %r and %r: %s" % (c["env0"], c["env1"], diff or "none now"))
+        return 1 if diff else 0
     else:
-        print("determinism finding: re-run ./check C14")
+        print("nothing to replay for this case")
         return 0
     for d in r["violations"]:
         print(d["key"], d["detail"])
